@@ -1,9 +1,1062 @@
-//! group `rrl` — stub (not built yet).
+//! groups `rrl` (C26), `rrlkey` (C27), `rrlburst` (C28): response rate limiting, driven through
+//! `Server::handle_message` with the hooks of cargo feature `verif_hooks`.
+//!
+//! One case = one whole history against a fresh `Server` (see lean/QV/Driver/Rrl.lean for the
+//! line format). What the code reads from its environment is recorded into the case line:
+//!   * `RandomState`: `verif_rrl_probe` gives bucket index / masked destination / QNAME hash;
+//!     probing four more fresh servers gives the *key class* of each response (which responses
+//!     the real code gives equal keys), so that a genuine bucket collision (different keys, same
+//!     index: documented, "old entry forgotten") can be told from a wrong key (streams merged);
+//!   * what the request handler produced before RRL (response or not, extended RCODE, OPT):
+//!     taken from a second `Server` with the same catalog and rate limiting off;
+//!   * `thread_rng` (slip ≥ 2): whether a limited response was observed slipped;
+//!   * time: `verif_rrl_shift(secs)` is the only source of elapsed whole seconds. A history is
+//!     executed in well under a second of real time (measured from before `Server::new` to after
+//!     the last request; histories that took longer than `MAX_REAL` are discarded and re-run,
+//!     their number is reported as the op `rrl-discarded-<n>`). Every bucket keeps the sub-second
+//!     phase of its creation instant, so with less than a second of real time in total the whole
+//!     seconds seen by `process_response` are exactly the sum of the shifts: timing cannot flip
+//!     a decision.
+//!   * sub-second phases (does the refill keep the phase of the stream's first response?): a few
+//!     histories contain real sleeps `w<ms>`; they are built so that every request is at least
+//!     0.2 s away from a whole-second boundary of its bucket, the model runs on the nominal times,
+//!     and the history is discarded when the real clock ran more than `MAX_REAL` (0.15 s) ahead.
 #![allow(unused)]
 use crate::common::*;
+use quandary::class::Class;
+use quandary::db::catalog::Entry;
+use quandary::db::zone::GluePolicy;
+use quandary::db::{HashMapTreeCatalog, HashMapTreeZone};
+use quandary::message::ExtendedRcode;
+use quandary::name::Name;
+use quandary::rr::{Rdata, Ttl, Type};
+use quandary::server::{ReceivedInfo, Response, RrlParams, Server, Transport};
+use std::net::{IpAddr, Ipv4Addr, Ipv6Addr};
+use std::sync::{Arc, Barrier, OnceLock};
+use std::time::{Duration, Instant};
 
-pub fn run(_op: &str, _a: &[&str]) -> Option<String> {
+type Cat = HashMapTreeCatalog<HashMapTreeZone, ()>;
+
+/// how far the real clock may run ahead of the nominal time of a history (sum of its `w` sleeps)
+const MAX_REAL: Duration = Duration::from_millis(150);
+
+// ------------------------------------------------------------------------------------------------
+// fixture: a tiny catalog that can provoke every RCODE class
+// ------------------------------------------------------------------------------------------------
+
+fn nm(s: &str) -> Box<Name> {
+    s.parse().unwrap()
+}
+
+fn rd(v: Vec<u8>) -> Box<Rdata> {
+    v.try_into().unwrap()
+}
+
+fn catalog() -> Arc<Cat> {
+    static C: OnceLock<Arc<Cat>> = OnceLock::new();
+    C.get_or_init(|| {
+        let apex = nm("example.");
+        let mut z = HashMapTreeZone::new(apex.clone(), Class::IN, GluePolicy::Narrow);
+        let mut soa = Vec::new();
+        soa.extend_from_slice(nm("ns.example.").wire_repr());
+        soa.extend_from_slice(nm("admin.example.").wire_repr());
+        for v in [1u32, 3600, 600, 86400, 300] {
+            soa.extend_from_slice(&v.to_be_bytes());
+        }
+        let t = Ttl::from(300);
+        z.add(&apex, Type::SOA, Class::IN, t, &rd(soa)).unwrap();
+        z.add(&apex, Type::NS, Class::IN, t, &rd(nm("ns.example.").wire_repr().to_vec())).unwrap();
+        z.add(&nm("ns.example."), Type::A, Class::IN, t, &rd(vec![192, 0, 2, 53])).unwrap();
+        z.add(&nm("a.example."), Type::A, Class::IN, t, &rd(vec![192, 0, 2, 1])).unwrap();
+        z.add(&nm("b.example."), Type::A, Class::IN, t, &rd(vec![192, 0, 2, 2])).unwrap();
+        z.add(&nm("*.w.example."), Type::A, Class::IN, t, &rd(vec![192, 0, 2, 3])).unwrap();
+        z.add(&nm("*.w.example."), Type::TXT, Class::IN, t, &rd(vec![2, b'h', b'i'])).unwrap();
+        let mut c = Cat::new();
+        c.insert(Entry::Loaded(Arc::new(z), ()));
+        c.insert(Entry::NotYetLoaded(nm("broken."), Class::IN, ()));
+        Arc::new(c)
+    })
+    .clone()
+}
+
+fn wildcard_parent() -> &'static Name {
+    static N: OnceLock<Box<Name>> = OnceLock::new();
+    N.get_or_init(|| nm("w.example."))
+}
+
+fn wildcard() -> &'static Name {
+    static N: OnceLock<Box<Name>> = OnceLock::new();
+    N.get_or_init(|| nm("*.w.example."))
+}
+
+// ------------------------------------------------------------------------------------------------
+// request encoder / response decoder (the harness's own, a few lines each)
+// ------------------------------------------------------------------------------------------------
+
+#[derive(Clone, Copy, PartialEq, Eq)]
+enum Shape {
+    Normal,
+    TruncatedQuestion, // FORMERR, no question read
+    TwoQuestions,      // QDCOUNT = 2: ignored, no response
+    QrSet,             // a response: ignored
+}
+
+fn encode_request(id: u16, opcode: u8, qname: &[u8], qtype: u16, qclass: u16, edns_version: Option<u8>, shape: Shape) -> Vec<u8> {
+    let mut m = Vec::with_capacity(64);
+    m.extend_from_slice(&id.to_be_bytes());
+    let mut b2 = (opcode & 0xf) << 3;
+    b2 |= 1; // RD
+    if shape == Shape::QrSet {
+        b2 |= 0x80;
+    }
+    m.push(b2);
+    m.push(0);
+    let qd: u16 = if shape == Shape::TwoQuestions { 2 } else { 1 };
+    m.extend_from_slice(&qd.to_be_bytes());
+    m.extend_from_slice(&[0, 0, 0, 0]);
+    let ar: u16 = if edns_version.is_some() && shape != Shape::TruncatedQuestion { 1 } else { 0 };
+    m.extend_from_slice(&ar.to_be_bytes());
+    m.extend_from_slice(qname);
+    m.extend_from_slice(&qtype.to_be_bytes());
+    m.extend_from_slice(&qclass.to_be_bytes());
+    if shape == Shape::TwoQuestions {
+        m.extend_from_slice(qname);
+        m.extend_from_slice(&qtype.to_be_bytes());
+        m.extend_from_slice(&qclass.to_be_bytes());
+    }
+    if shape == Shape::TruncatedQuestion {
+        let cut = 12 + qname.len() / 2;
+        m.truncate(cut.max(12));
+        return m;
+    }
+    if let Some(v) = edns_version {
+        m.push(0);
+        m.extend_from_slice(&41u16.to_be_bytes());
+        m.extend_from_slice(&1232u16.to_be_bytes());
+        m.extend_from_slice(&[0, v, 0, 0]);
+        m.extend_from_slice(&[0, 0]);
+    }
+    m
+}
+
+#[derive(Debug, Clone, Copy, Default)]
+struct RespInfo {
+    tc: bool,
+    an: u16,
+    ns: u16,
+    ar: u16,
+    opt: u16,
+    ext_rcode: u16,
+}
+
+fn skip_name(m: &[u8], mut i: usize) -> Option<usize> {
+    loop {
+        let l = *m.get(i)? as usize;
+        if l == 0 {
+            return Some(i + 1);
+        } else if l >= 0xc0 {
+            m.get(i + 1)?;
+            return Some(i + 2);
+        } else {
+            i += 1 + l;
+        }
+    }
+}
+
+fn parse_response(m: &[u8]) -> Option<RespInfo> {
+    if m.len() < 12 {
+        return None;
+    }
+    let u16at = |i: usize| -> Option<u16> { Some(u16::from_be_bytes([*m.get(i)?, *m.get(i + 1)?])) };
+    let mut info = RespInfo { tc: m[2] & 0x02 != 0, an: u16at(6)?, ns: u16at(8)?, ar: u16at(10)?, opt: 0, ext_rcode: (m[3] & 0x0f) as u16 };
+    let qd = u16at(4)?;
+    let mut i = 12;
+    for _ in 0..qd {
+        i = skip_name(m, i)? + 4;
+    }
+    let total = info.an as usize + info.ns as usize + info.ar as usize;
+    for _ in 0..total {
+        i = skip_name(m, i)?;
+        let ty = u16at(i)?;
+        let rdlen = u16at(i + 8)? as usize;
+        if ty == 41 {
+            info.opt += 1;
+            let upper = *m.get(i + 4)? as u16;
+            info.ext_rcode |= upper << 4;
+        }
+        i += 10 + rdlen;
+    }
+    if i != m.len() {
+        return None;
+    }
+    Some(info)
+}
+
+// ------------------------------------------------------------------------------------------------
+// scripts
+// ------------------------------------------------------------------------------------------------
+
+#[derive(Clone, Debug)]
+struct Params {
+    ne: u32,
+    nx: u32,
+    er: u32,
+    window: u32,
+    slip: usize,
+    v4len: u8,
+    v6len: u8,
+    size: usize,
+}
+
+impl Params {
+    fn text(&self) -> String {
+        format!("{} {} {} {} {} {} {} {}", self.ne, self.nx, self.er, self.window, self.slip, self.v4len, self.v6len, self.size)
+    }
+    fn build(&self) -> Result<RrlParams, String> {
+        let e = |x: quandary::server::RrlParamError| format!("err:{:?}", x);
+        let mut p = RrlParams::new(self.ne, self.nx, self.er, self.window).map_err(e)?;
+        p.set_slip(self.slip);
+        p.set_ipv4_prefix_len(self.v4len).map_err(e)?;
+        p.set_ipv6_prefix_len(self.v6len).map_err(e)?;
+        p.set_size(self.size).map_err(e)?;
+        Ok(p)
+    }
+}
+
+#[derive(Clone, Debug)]
+enum SStep {
+    Shift(u64),
+    Wait(u64),
+    Q { src: IpAddr, udp: bool, req: Vec<u8> },
+}
+
+fn src_hex(a: &IpAddr) -> String {
+    match a {
+        IpAddr::V4(v) => format!("{:08x}", u32::from(*v)),
+        IpAddr::V6(v) => format!("{:032x}", u128::from(*v)),
+    }
+}
+
+fn src_unhex(s: &str) -> Option<IpAddr> {
+    if s.len() == 8 {
+        Some(IpAddr::V4(Ipv4Addr::from(u32::from_str_radix(s, 16).ok()?)))
+    } else if s.len() == 32 {
+        Some(IpAddr::V6(Ipv6Addr::from(u128::from_str_radix(s, 16).ok()?)))
+    } else {
+        None
+    }
+}
+
+/// the harness's own reading of "IPv4-mapped IPv6 counts as IPv4" (used for the probe only)
+fn canonical(a: IpAddr) -> IpAddr {
+    match a {
+        IpAddr::V6(v) => {
+            let n = u128::from(v);
+            if n >> 32 == 0xffff {
+                IpAddr::V4(Ipv4Addr::from(n as u32))
+            } else {
+                a
+            }
+        }
+        _ => a,
+    }
+}
+
+/// the question's QNAME as the server reads it (None if QDCOUNT ≠ 1 or it does not parse)
+fn question_of(req: &[u8]) -> Option<Box<Name>> {
+    if req.len() < 12 || u16::from_be_bytes([req[4], req[5]]) != 1 {
+        return None;
+    }
+    let (n, len) = Name::try_from_compressed(req, 12).ok()?;
+    if req.len() < 12 + len + 4 {
+        return None;
+    }
+    Some(n)
+}
+
+struct Exec {
+    case: String,
+    result: String,
+    /// first-occurrence relabelling of bucket indices and QNAME hashes (for replays)
+    pattern: (Vec<usize>, Vec<usize>),
+}
+
+fn relabel<T: PartialEq + Copy>(xs: &[T]) -> Vec<usize> {
+    let mut seen: Vec<T> = Vec::new();
+    xs.iter()
+        .map(|x| match seen.iter().position(|y| y == x) {
+            Some(i) => i,
+            None => {
+                seen.push(*x);
+                seen.len() - 1
+            }
+        })
+        .collect()
+}
+
+thread_local! {
+    static BUF: std::cell::RefCell<Vec<u8>> = std::cell::RefCell::new(vec![0u8; 65535]);
+    static BUF2: std::cell::RefCell<Vec<u8>> = std::cell::RefCell::new(vec![0u8; 65535]);
+}
+
+/// Execute one history. `Err(result)` for configuration errors; `Ok(None)` if the real clock
+/// advanced too far (discard).
+fn exec(p: &Params, steps: &[SStep]) -> Result<Option<Exec>, String> {
+    let cat = catalog();
+    let reference = Server::new(cat.clone());
+    let t_start = Instant::now();
+    let mut server = Server::new(cat);
+    server.set_rrl_params(Some(p.build()?));
+    // four more servers with the same parameters (table size 1031), never sent a request: two
+    // responses get the same key class iff all four fresh `RandomState`s put them in the same
+    // bucket (and masked destination and QNAME hash agree) — the identity of the *key* the real
+    // code computes, independent of collisions in the table under test (error < 10⁻¹²)
+    let key_probes: Vec<Server<Cat>> = (0..4).map(|_| {
+        let mut s = Server::new(catalog());
+        s.set_rrl_params(Some(Params { size: 1031, ..p.clone() }.build().unwrap()));
+        s
+    }).collect();
+    let mut sigs: Vec<(u64, u32, [usize; 4])> = Vec::new();
+    let mut toks: Vec<String> = Vec::new();
+    let mut panicked = false;
+    let mut nominal = Duration::ZERO;
+    let mut parts: Vec<String> = Vec::new();
+    let mut idxs = Vec::new();
+    let mut hashes = Vec::new();
+    let root = nm(".");
+    BUF.with(|b| {
+        BUF2.with(|b2| {
+            let mut buf = b.borrow_mut();
+            let mut rbuf = b2.borrow_mut();
+            for st in steps {
+                match st {
+                    SStep::Shift(secs) => {
+                        server.verif_rrl_shift(*secs);
+                        parts.push(format!("s{}", secs));
+                    }
+                    SStep::Wait(ms) => {
+                        std::thread::sleep(Duration::from_millis(*ms));
+                        nominal += Duration::from_millis(*ms);
+                        parts.push(format!("w{}", ms));
+                    }
+                    SStep::Q { src, udp, req } => {
+                        let tr = if *udp { Transport::Udp } else { Transport::Tcp };
+                        // what the handler produces without rate limiting
+                        let rlen = match reference.handle_message(req, ReceivedInfo::new(*src, tr), &mut rbuf[..]) {
+                            Response::Single(n) => Some(n),
+                            Response::None => None,
+                        };
+                        let rinfo = rlen.and_then(|n| parse_response(&rbuf[..n]));
+                        let opcode = if req.len() >= 3 { (req[2] >> 3) & 0xf } else { 0 };
+                        let rcode = rinfo.map(|i| i.ext_rcode).unwrap_or(0);
+                        let edns = rinfo.map(|i| i.opt > 0).unwrap_or(false);
+                        let qname = question_of(req);
+                        let sos: Option<&Name> = match &qname {
+                            Some(q) if rlen.is_some() && rcode == 0 && opcode == 0
+                                && q.eq_or_subdomain_of(wildcard_parent())
+                                && **q != *wildcard_parent()
+                                && **q != *wildcard() => Some(wildcard()),
+                            _ => None,
+                        };
+                        let stream_name: &Name = sos.or(qname.as_deref()).unwrap_or(&root);
+                        let (idx, dest, qhash) = server
+                            .verif_rrl_probe(canonical(*src), stream_name, ExtendedRcode::from(rcode))
+                            .expect("rrl enabled");
+                        idxs.push(idx);
+                        hashes.push(qhash);
+                        let mut four = [0usize; 4];
+                        for (i, ks) in key_probes.iter().enumerate() {
+                            four[i] = ks.verif_rrl_probe(canonical(*src), stream_name, ExtendedRcode::from(rcode)).unwrap().0;
+                        }
+                        let sig = (dest, qhash, four);
+                        let kc = match sigs.iter().position(|x| *x == sig) {
+                            Some(i) => i,
+                            None => { sigs.push(sig); sigs.len() - 1 }
+                        };
+                        // the real thing
+                        let got = std::panic::catch_unwind(std::panic::AssertUnwindSafe(|| {
+                            match server.handle_message(req, ReceivedInfo::new(*src, tr), &mut buf[..]) {
+                                Response::Single(n) => Some(n),
+                                Response::None => None,
+                            }
+                        }));
+                        let got = match got {
+                            Ok(g) => g,
+                            Err(_) => {
+                                // the real code panicked on this request: the history ends here,
+                                // the line still carries every recorded input
+                                panicked = true;
+                                None
+                            }
+                        };
+                        let mut rnd = false;
+                        // the handler's own response is already "TC, no records but OPT": a slipped
+                        // copy is the same octets, so sent and slipped cannot be told apart
+                        let bare = rinfo.map(|i| i.tc && i.an == 0 && i.ns == 0 && i.ar == i.opt).unwrap_or(false);
+                        let tok = match (rlen, got) {
+                            _ if panicked => "panic".to_string(),
+                            (Some(rn), Some(n)) if bare && buf[..n] == rbuf[..rn] => {
+                                rnd = true;
+                                "pass".to_string()
+                            }
+                            (None, None) => "none".to_string(),
+                            (None, Some(_)) => "ghost".to_string(),
+                            (Some(_), None) => {
+                                if p.slip >= 2 { "lim".to_string() } else { "drop".to_string() }
+                            }
+                            (Some(rn), Some(n)) => {
+                                if buf[..n] == rbuf[..rn] {
+                                    "send".to_string()
+                                } else {
+                                    match parse_response(&buf[..n]) {
+                                        None => "garbled".to_string(),
+                                        Some(i) => {
+                                            rnd = true;
+                                            let e = if edns { 1 } else { 0 };
+                                            // besides TC and the removed records nothing may change
+                                            let same_head = buf[..2] == rbuf[..2] && buf[2] & !0x02 == rbuf[2] & !0x02
+                                                && buf[3] == rbuf[3] && buf[4..6] == rbuf[4..6];
+                                            if p.slip >= 2 && i.tc && i.an == 0 && i.ns == 0 && i.ar == e && i.opt == e && same_head {
+                                                "lim".to_string()
+                                            } else {
+                                                format!("slip:{}:{}:{}:{}:{}{}", i.tc as u8, i.an, i.ns, i.ar, i.opt,
+                                                        if same_head { "" } else { "!head" })
+                                            }
+                                        }
+                                    }
+                                }
+                            }
+                        };
+                        toks.push(tok);
+                        let hexname = |n: Option<&Name>| n.map(|n| hex(n.wire_repr())).unwrap_or_else(|| "-".into());
+                        parts.push(format!(
+                            "q,{},{},{},{},{},{},{},{},{},{},{},{},{},{},{}",
+                            src_hex(src), if *udp { "u" } else { "t" }, hex(req), opcode,
+                            rlen.is_some() as u8, rcode, hexname(qname.as_deref()), hexname(sos),
+                            edns as u8, rnd as u8, idx, dest, qhash, kc, bare as u8
+                        ));
+                        if panicked {
+                            break;
+                        }
+                    }
+                }
+            }
+        })
+    });
+    if t_start.elapsed() > nominal + MAX_REAL {
+        return Ok(None);
+    }
+    Ok(Some(Exec {
+        case: format!("rrl {} {}", p.text(), parts.join(";")),
+        result: if panicked { "panic".to_string() } else { format!("ok {}", toks.join(",")) },
+        pattern: (relabel(&idxs), relabel(&hashes)),
+    }))
+}
+
+fn parse_params(a: &[&str]) -> Option<Params> {
+    Some(Params {
+        ne: a[0].parse().ok()?,
+        nx: a[1].parse().ok()?,
+        er: a[2].parse().ok()?,
+        window: a[3].parse().ok()?,
+        slip: a[4].parse().ok()?,
+        v4len: a[5].parse().ok()?,
+        v6len: a[6].parse().ok()?,
+        size: a[7].parse().ok()?,
+    })
+}
+
+/// a case line back into a script, plus the recorded collision pattern
+fn parse_case(a: &[&str]) -> Option<(Params, Vec<SStep>, (Vec<usize>, Vec<usize>))> {
+    if a.len() != 9 {
+        return None;
+    }
+    let p = parse_params(a)?;
+    let mut steps = Vec::new();
+    let (mut idxs, mut hashes) = (Vec::new(), Vec::new());
+    for s in a[8].split(';') {
+        if let Some(n) = s.strip_prefix('s') {
+            steps.push(SStep::Shift(n.parse().ok()?));
+        } else if let Some(n) = s.strip_prefix('w') {
+            steps.push(SStep::Wait(n.parse().ok()?));
+        } else {
+            let f: Vec<&str> = s.split(',').collect();
+            if f.len() != 16 || f[0] != "q" {
+                return None;
+            }
+            steps.push(SStep::Q { src: src_unhex(f[1])?, udp: f[2] == "u", req: unhex(f[3])? });
+            idxs.push(f[11].parse::<usize>().ok()?);
+            hashes.push(f[13].parse::<u32>().ok()?);
+        }
+    }
+    Some((p, steps, (relabel(&idxs), relabel(&hashes))))
+}
+
+pub fn run(op: &str, a: &[&str]) -> Option<String> {
+    match op {
+        "rrl" => Some(guarded(|| {
+            let Some((p, steps, pattern)) = parse_case(a) else { return "bad-op".into() };
+            // `RandomState` is fresh for every server: re-run until the bucket-collision and
+            // hash-equality pattern of the recorded history is reproduced (the model depends on
+            // nothing else of the recorded indices and hashes)
+            let mut last = "unreplayable".to_string();
+            for _ in 0..20000 {
+                match exec(&p, &steps) {
+                    Err(e) => return e,
+                    Ok(None) => continue,
+                    Ok(Some(x)) => {
+                        if x.pattern == pattern {
+                            return x.result;
+                        }
+                        last = x.result;
+                    }
+                }
+            }
+            last
+        })),
+        "burst" => Some(guarded(|| {
+            let v: Option<Vec<u64>> = a.iter().map(|s| s.parse::<u64>().ok()).collect();
+            match v {
+                Some(v) if v.len() == 10 => burst(&v).unwrap_or_else(|| "timing".to_string()),
+                _ => "bad-op".into(),
+            }
+        })),
+        "bursts" => Some(guarded(|| {
+            let v: Option<Vec<u64>> = a.iter().map(|s| s.parse::<u64>().ok()).collect();
+            match v {
+                Some(v) if v.len() == 9 => bursts(&v).unwrap_or_else(|| "timing".to_string()),
+                _ => "bad-op".into(),
+            }
+        })),
+        _ if op.starts_with("rrl-discarded-") => Some("ok".into()),
+        _ => None,
+    }
+}
+
+// ------------------------------------------------------------------------------------------------
+// C28: bursts from real threads
+// ------------------------------------------------------------------------------------------------
+
+/// args: ne nx er window slip size pre threads per yield
+fn burst(v: &[u64]) -> Option<String> {
+    let p = Params { ne: v[0] as u32, nx: v[1] as u32, er: v[2] as u32, window: v[3] as u32, slip: v[4] as usize, v4len: 24, v6len: 56, size: v[5] as usize };
+    let (pre, threads, per, yields) = (v[6] as usize, v[7] as usize, v[8] as usize, v[9] != 0);
+    let params = match p.build() {
+        Ok(x) => x,
+        Err(e) => return Some(e),
+    };
+    drop(params);
+    let req = encode_request(0x1234, 0, nm("a.example.").wire_repr(), 1, 1, None, Shape::Normal);
+    let src = IpAddr::V4(Ipv4Addr::new(192, 0, 2, 77));
+    for _attempt in 0..8 {
+        let cat = catalog();
+        let t_start = Instant::now();
+        let mut server = Server::new(cat);
+        server.set_rrl_params(Some(p.build().unwrap()));
+        let mut buf = vec![0u8; 2048];
+        for _ in 0..pre {
+            let _ = server.handle_message(&req, ReceivedInfo::new(src, Transport::Udp), &mut buf);
+        }
+        let barrier = Barrier::new(threads);
+        let server = &server;
+        let req = &req;
+        let barrier = &barrier;
+        let counts: Vec<(usize, usize, usize)> = std::thread::scope(|s| {
+            let hs: Vec<_> = (0..threads)
+                .map(|t| {
+                    s.spawn(move || {
+                        let mut buf = vec![0u8; 2048];
+                        let (mut sent, mut slipped, mut dropped) = (0, 0, 0);
+                        barrier.wait();
+                        for k in 0..per {
+                            match server.handle_message(req, ReceivedInfo::new(src, Transport::Udp), &mut buf) {
+                                Response::None => dropped += 1,
+                                Response::Single(_) => {
+                                    if buf[2] & 0x02 != 0 { slipped += 1 } else { sent += 1 }
+                                }
+                            }
+                            if yields && (k + t) % 3 == 0 {
+                                std::thread::yield_now();
+                            }
+                        }
+                        (sent, slipped, dropped)
+                    })
+                })
+                .collect();
+            hs.into_iter().map(|h| h.join().unwrap()).collect()
+        });
+        if t_start.elapsed() > Duration::from_millis(500) {
+            continue;
+        }
+        let (s, sl, d) = counts.iter().fold((0, 0, 0), |a, c| (a.0 + c.0, a.1 + c.1, a.2 + c.2));
+        return Some(if p.slip >= 2 { format!("ok {} {}", s, sl + d) } else { format!("ok {} {} {}", s, sl, d) });
+    }
     None
 }
 
-pub fn gen(_rng: &mut Rng, _thorough: bool, _em: &mut Emitter) {}
+/// `bursts`: like `burst`, but `rounds` bursts against ONE server, each on a never-seen /24 source,
+/// i.e. the concurrent requests are the *first* requests of their stream (the bucket does not hold
+/// the stream's key yet). Threads are aligned by a spinning barrier before and after every round
+/// (a plain `Barrier` wakes threads too far apart to exercise the window between "is this my
+/// stream's bucket?" and the update). args: ne nx er window slip size rounds threads per
+fn bursts(v: &[u64]) -> Option<String> {
+    use std::sync::atomic::{AtomicUsize, Ordering};
+    let p = Params { ne: v[0] as u32, nx: v[1] as u32, er: v[2] as u32, window: v[3] as u32, slip: v[4] as usize, v4len: 24, v6len: 56, size: v[5] as usize };
+    let (rounds, threads, per) = (v[6] as usize, v[7] as usize, v[8] as usize);
+    if let Err(e) = p.build() { return Some(e); }
+    let req = encode_request(0x1234, 0, nm("a.example.").wire_repr(), 1, 1, None, Shape::Normal);
+    for _attempt in 0..8 {
+        let cat = catalog();
+        let mut server = Server::new(cat);
+        server.set_rrl_params(Some(p.build().unwrap()));
+        let arrived = AtomicUsize::new(0);
+        let slow = AtomicUsize::new(0);
+        let server = &server;
+        let req = &req;
+        let arrived = &arrived;
+        let slow = &slow;
+        let counts: Vec<(usize, usize, usize)> = std::thread::scope(|s| {
+            let hs: Vec<_> = (0..threads)
+                .map(|_t| {
+                    s.spawn(move || {
+                        let mut buf = vec![0u8; 2048];
+                        let (mut sent, mut slipped, mut dropped) = (0, 0, 0);
+                        let mut phase = 0usize;
+                        let mut wait = |phase: &mut usize| {
+                            *phase += 1;
+                            arrived.fetch_add(1, Ordering::SeqCst);
+                            while arrived.load(Ordering::SeqCst) < *phase * threads { std::hint::spin_loop(); }
+                        };
+                        for r in 0..rounds {
+                            let src = IpAddr::V4(Ipv4Addr::new(10, (r >> 8) as u8, r as u8, 77));
+                            wait(&mut phase);
+                            let t0 = Instant::now();
+                            for _ in 0..per {
+                                match server.handle_message(req, ReceivedInfo::new(src, Transport::Udp), &mut buf) {
+                                    Response::None => dropped += 1,
+                                    Response::Single(_) => { if buf[2] & 0x02 != 0 { slipped += 1 } else { sent += 1 } }
+                                }
+                            }
+                            wait(&mut phase);
+                            // every stream must live well inside one second of its own first response
+                            if t0.elapsed() > Duration::from_millis(400) { slow.fetch_add(1, Ordering::SeqCst); }
+                        }
+                        (sent, slipped, dropped)
+                    })
+                })
+                .collect();
+            hs.into_iter().map(|h| h.join().unwrap()).collect()
+        });
+        if slow.load(Ordering::SeqCst) > 0 { continue; }
+        let (s, sl, d) = counts.iter().fold((0, 0, 0), |a, c| (a.0 + c.0, a.1 + c.1, a.2 + c.2));
+        return Some(if p.slip >= 2 { format!("ok {} {}", s, sl + d) } else { format!("ok {} {} {}", s, sl, d) });
+    }
+    None
+}
+
+// ------------------------------------------------------------------------------------------------
+// generators
+// ------------------------------------------------------------------------------------------------
+
+const NOERROR_NAMES: [&str; 6] = ["a.example.", "A.Example.", "b.example.", "example.", "a.EXAMPLE.", "ns.example."];
+const WILD_NAMES: [&str; 6] = ["x.w.example.", "y.w.example.", "X.W.Example.", "*.w.example.", "deep.x.w.example.", "*.W.example."];
+const NX_NAMES: [&str; 4] = ["nx.example.", "other.example.", "NX.example.", "z.y.example."];
+const REFUSED_NAMES: [&str; 3] = ["other.", "example.org.", "."];
+const SERVFAIL_NAMES: [&str; 2] = ["broken.", "x.broken."];
+
+/// a request whose response falls into the wanted class (0 noerror, 1 wildcard noerror, 2 nxdomain,
+/// 3 refused, 4 servfail, 5 notimp (qtype AXFR), 6 formerr, 7 badvers, 8 non-QUERY opcode,
+/// 9 two questions (no response), 10 QR set (no response))
+fn gen_request(rng: &mut Rng, class: usize) -> Vec<u8> {
+    let id = rng.next() as u16;
+    let edns = if rng.chance(1, 4) { Some(0u8) } else { None };
+    let qt = *rng.pick(&[1u16, 1, 1, 16, 15, 255]);
+    let w = |s: &str| nm(s).wire_repr().to_vec();
+    match class {
+        0 => encode_request(id, 0, &w(*rng.pick(&NOERROR_NAMES[..])), qt, 1, edns, Shape::Normal),
+        1 => encode_request(id, 0, &w(*rng.pick(&WILD_NAMES[..])), qt, 1, edns, Shape::Normal),
+        2 => encode_request(id, 0, &w(*rng.pick(&NX_NAMES[..])), qt, 1, edns, Shape::Normal),
+        3 => encode_request(id, 0, &w(*rng.pick(&REFUSED_NAMES[..])), qt, 1, edns, Shape::Normal),
+        4 => encode_request(id, 0, &w(*rng.pick(&SERVFAIL_NAMES[..])), qt, 1, edns, Shape::Normal),
+        5 => encode_request(id, 0, &w(*rng.pick(&NOERROR_NAMES[..])), 252, 1, edns, Shape::Normal),
+        6 => encode_request(id, 0, &w(*rng.pick(&NOERROR_NAMES[..])), qt, 1, None, Shape::TruncatedQuestion),
+        7 => encode_request(id, 0, &w(*rng.pick(&NOERROR_NAMES[..])), qt, 1, Some(1), Shape::Normal),
+        8 => encode_request(id, *rng.pick(&[1u8, 2, 4, 5, 6, 15]), &w(*rng.pick(&NOERROR_NAMES[..])), qt, 1, edns, Shape::Normal),
+        9 => encode_request(id, 0, &w(*rng.pick(&NOERROR_NAMES[..])), qt, 1, None, Shape::TwoQuestions),
+        11 => tsig_noquestion_request(id),
+        _ => encode_request(id, 0, &w(*rng.pick(&NOERROR_NAMES[..])), qt, 1, edns, Shape::QrSet),
+    }
+}
+
+/// D17: QDCOUNT = 0 and one TSIG record with a 255-octet key name and a 220-octet algorithm name.
+/// The key is unknown, the error TSIG of the response does not fit into 512 octets, so the
+/// handler answers with TC set, RCODE NOERROR and no question (RFC 8945 §5.3).
+fn tsig_noquestion_request(id: u16) -> Vec<u8> {
+    let label = |n: usize, c: u8| { let mut v = vec![n as u8]; v.extend(std::iter::repeat(c).take(n)); v };
+    let mut key = Vec::new();
+    for n in [63, 63, 63, 61] { key.extend(label(n, b'k')); }
+    key.push(0);
+    let mut alg = Vec::new();
+    for n in [63, 63, 63, 26] { alg.extend(label(n, b'g')); }
+    alg.push(0);
+    let mut rdata = alg;
+    rdata.extend_from_slice(&[0, 0, 0, 0, 0, 1]); // time signed
+    rdata.extend_from_slice(&300u16.to_be_bytes());
+    rdata.extend_from_slice(&6u16.to_be_bytes()); // MAC size
+    rdata.extend_from_slice(&[1, 2, 3, 4, 5, 6]);
+    rdata.extend_from_slice(&id.to_be_bytes());
+    rdata.extend_from_slice(&[0, 0, 0, 0]); // error, other len
+    let mut m = Vec::new();
+    m.extend_from_slice(&id.to_be_bytes());
+    m.extend_from_slice(&[0, 0, 0, 0, 0, 0, 0, 0, 0, 1]); // QUERY, QDCOUNT 0 … ARCOUNT 1
+    m.extend(key);
+    m.extend_from_slice(&250u16.to_be_bytes());
+    m.extend_from_slice(&255u16.to_be_bytes());
+    m.extend_from_slice(&[0, 0, 0, 0]);
+    m.extend_from_slice(&(rdata.len() as u16).to_be_bytes());
+    m.extend(rdata);
+    m
+}
+
+fn gen_class(rng: &mut Rng) -> usize {
+    *rng.pick(&[0, 0, 0, 0, 1, 1, 2, 2, 2, 3, 3, 4, 5, 6, 7, 8, 9, 10, 11])
+}
+
+fn log_uniform(rng: &mut Rng, max_exp: u32) -> u64 {
+    let e = rng.below(max_exp as usize + 1) as u32;
+    let lo = 10u64.pow(e);
+    lo + rng.next() % (lo * 9).max(1)
+}
+
+fn gen_src(rng: &mut Rng) -> IpAddr {
+    match rng.below(10) {
+        0..=5 => IpAddr::V4(Ipv4Addr::from(rng.next() as u32)),
+        6 => IpAddr::V6(Ipv6Addr::from((0xffffu128 << 32) | (rng.next() as u32 as u128))), // IPv4-mapped
+        7 => IpAddr::V4(Ipv4Addr::from(*rng.pick(&[0u32, 1, 0xff, 0xffff_ffff, 0x8000_0000]))),
+        _ => IpAddr::V6(Ipv6Addr::from(((rng.next() as u128) << 64) | rng.next() as u128)),
+    }
+}
+
+/// a source related to `a`: same, one bit flipped around the prefix boundary, IPv4-mapped twin …
+fn related_src(rng: &mut Rng, a: IpAddr, v4len: u8, v6len: u8) -> IpAddr {
+    match a {
+        IpAddr::V4(v) => {
+            let n = u32::from(v);
+            let l = v4len as i32;
+            match rng.below(8) {
+                0 => a,
+                1 => IpAddr::V6(Ipv6Addr::from((0xffffu128 << 32) | n as u128)),
+                2 => IpAddr::V6(Ipv6Addr::from(n as u128)), // ::a.b.c.d — *not* IPv4-mapped
+                3 => IpAddr::V4(Ipv4Addr::from(n ^ (rng.next() as u32))),
+                4 => IpAddr::V6(Ipv6Addr::from((0xfffeu128 << 32) | n as u128)),
+                _ => {
+                    // flip the bit number `b` counted from the most significant bit
+                    let b = (*rng.pick(&[l - 1, l - 1, l, l, l + 1, l - 2, 0, 31])).clamp(0, 31) as u32;
+                    IpAddr::V4(Ipv4Addr::from(n ^ (1u32 << (31 - b))))
+                }
+            }
+        }
+        IpAddr::V6(v) => {
+            let n = u128::from(v);
+            if n >> 32 == 0xffff {
+                let v4 = IpAddr::V4(Ipv4Addr::from(n as u32));
+                return if rng.chance(1, 2) { v4 } else { related_src(rng, v4, v4len, v6len) };
+            }
+            let l = v6len as i32;
+            match rng.below(6) {
+                0 => a,
+                1 => IpAddr::V6(Ipv6Addr::from(n ^ (rng.next() as u128))), // low 64 bits differ
+                2 => IpAddr::V4(Ipv4Addr::from((n >> 96) as u32)),
+                _ => {
+                    let b = (*rng.pick(&[l - 1, l - 1, l, l, l + 1, 0, 63, 64, 127])).clamp(0, 127) as u32;
+                    IpAddr::V6(Ipv6Addr::from(n ^ (1u128 << (127 - b))))
+                }
+            }
+        }
+    }
+}
+
+fn gen_rates(rng: &mut Rng) -> (u32, u32, u32, u32) {
+    // (noerror, nxdomain, error, window) with rate·window < 2^32
+    let mut one = |rng: &mut Rng| -> u32 {
+        match rng.below(10) {
+            0..=4 => rng.range(1, 5) as u32,
+            5 => rng.range(6, 100) as u32,
+            6 => log_uniform(rng, 5).min(1_000_000) as u32,
+            7 => 1_000_000,
+            8 => *rng.pick(&[100u32, 65_536, 65_537, 42_949_672, 42_949_673]),
+            _ => 1,
+        }
+    };
+    let (a, b, c) = (one(rng), one(rng), one(rng));
+    let m = a.max(b).max(c) as u64;
+    let wmax = (((1u64 << 32) - 1) / m).min(100).max(1);
+    let w = match rng.below(4) {
+        0 => 1,
+        1 => wmax,
+        _ => 1 + rng.next() % wmax.min(6),
+    } as u32;
+    (a, b, c, w)
+}
+
+fn gen_gap(rng: &mut Rng, rate: u32, window: u32) -> u64 {
+    let q = (1u64 << 32) / rate as u64;
+    match rng.below(14) {
+        0 => 0,
+        1 => 1,
+        2 => 2,
+        3 => window as u64,
+        4 => (window as u64).saturating_sub(1),
+        5 => window as u64 + 1,
+        6 => rng.range(1, 100) as u64,
+        7 => log_uniform(rng, 8),
+        8 => 1_000_000_000,
+        9 => q.saturating_sub(1).max(1),
+        10 => q.max(1),
+        11 => q + 1,
+        12 => *rng.pick(&[(1u64 << 32) - 1, 1u64 << 32, (1u64 << 32) + 1, (1u64 << 33) + 3, (1u64 << 32) + q]),
+        _ => rng.range(1, 5) as u64,
+    }
+}
+
+/// C26: one main stream driven to exhaustion, idle gaps of every size, a few other streams
+fn gen_history(rng: &mut Rng) -> (Params, Vec<SStep>) {
+    let (ne, nx, er, window) = gen_rates(rng);
+    let p = Params {
+        ne, nx, er, window,
+        slip: *rng.pick(&[0usize, 0, 1, 1, 2, 5]),
+        v4len: *rng.pick(&[24u8, 24, 32, 0, 8, 31, 1]),
+        v6len: *rng.pick(&[56u8, 56, 64, 0, 48, 63, 1]),
+        size: *rng.pick(&[1usize, 2, 3, 17, 1009, 1009, 1009, 65537]),
+    };
+    let main_class = *rng.pick(&[0usize, 0, 0, 1, 2, 3, 6, 11]);
+    let main_req = gen_request(rng, main_class);
+    let main_src = gen_src(rng);
+    let rate = match main_class { 0 | 1 | 11 => ne, 2 => nx, _ => er };
+    let cap = rate as u64 * window as u64;
+    let others: Vec<(IpAddr, Vec<u8>)> = (0..rng.below(4)).map(|_| {
+        let c = gen_class(rng);
+        (if rng.chance(1, 2) { related_src(rng, main_src, p.v4len, p.v6len) } else { gen_src(rng) }, gen_request(rng, c))
+    }).collect();
+    let mut steps = Vec::new();
+    let rounds = rng.range(1, 5);
+    let mut budget = 120usize;
+    for r in 0..rounds {
+        // a run of the main stream, aimed at the capacity when it is small enough
+        let k = if cap <= 40 {
+            (cap as i64 + *rng.pick(&[-1i64, 0, 1, 2, 3])).max(1) as usize
+        } else {
+            rng.range(1, 6)
+        };
+        for _ in 0..k.min(budget) {
+            steps.push(SStep::Q { src: main_src, udp: true, req: main_req.clone() });
+            budget = budget.saturating_sub(1);
+            if !others.is_empty() && rng.chance(1, 5) {
+                let (s, q) = rng.pick(&others).clone();
+                steps.push(SStep::Q { src: s, udp: !rng.chance(1, 8), req: q });
+            }
+        }
+        if r + 1 < rounds {
+            steps.push(SStep::Shift(gen_gap(rng, rate, window)));
+            if rng.chance(1, 4) {
+                steps.push(SStep::Shift(gen_gap(rng, rate, window)));
+            }
+        }
+    }
+    (p, steps)
+}
+
+/// C27: a few requests under a limit of one response per stream
+fn gen_pair(rng: &mut Rng) -> (Params, Vec<SStep>) {
+    let (r4, r6) = (rng.below(33) as u8, rng.below(65) as u8);
+    let p = Params {
+        ne: 1, nx: 1, er: 1, window: 1,
+        slip: *rng.pick(&[0usize, 1]),
+        v4len: *rng.pick(&[0u8, 1, 8, 16, 24, 24, 25, 31, 32, 32, r4]),
+        v6len: *rng.pick(&[0u8, 1, 32, 48, 56, 56, 63, 64, 64, r6]),
+        size: *rng.pick(&[65537usize, 65537, 4099, 4099, 4099, 2]),
+    };
+    let base = gen_src(rng);
+    let c0 = gen_class(rng);
+    let first = gen_request(rng, c0);
+    let mut steps = vec![SStep::Q { src: base, udp: !rng.chance(1, 10), req: first.clone() }];
+    for _ in 0..rng.range(1, 4) {
+        let src = if rng.chance(3, 4) { related_src(rng, base, p.v4len, p.v6len) } else { gen_src(rng) };
+        let req = match rng.below(4) {
+            0 => first.clone(),
+            1 => gen_request(rng, c0),
+            _ => { let c = gen_class(rng); gen_request(rng, c) }
+        };
+        steps.push(SStep::Q { src, udp: !rng.chance(1, 8), req });
+        if rng.chance(1, 12) {
+            steps.push(SStep::Shift(1));
+        }
+    }
+    (p, steps)
+}
+
+/// C26, sub-second phase: requests at t₀, t₀ + 1.6 s, t₀ + 2.3 s … (shift + real sleeps). The
+/// bucket's ticks are at t₀ + n·1 s, so every request is ≥ 0.2 s away from a tick.
+fn gen_phase_history(rng: &mut Rng) -> (Params, Vec<SStep>) {
+    let rate = rng.range(1, 2) as u32;
+    let window = rng.range(1, 2) as u32;
+    let p = Params { ne: rate, nx: rate, er: rate, window, slip: *rng.pick(&[0usize, 1]), v4len: 24, v6len: 56, size: 65537 };
+    let class = *rng.pick(&[0usize, 1, 2, 3]);
+    let req = gen_request(rng, class);
+    let src = gen_src(rng);
+    let cap = (rate * window) as usize;
+    let mut steps = Vec::new();
+    let mut burst = |steps: &mut Vec<SStep>, n: usize| {
+        for _ in 0..n {
+            steps.push(SStep::Q { src, udp: true, req: req.clone() });
+        }
+    };
+    burst(&mut steps, cap + rng.below(2));           // exhaust (or nearly) at t₀
+    let w1 = rng.range(550, 700) as u64;              // t₀ + 0.55‥0.70
+    steps.push(SStep::Wait(w1));
+    if rng.chance(1, 2) {
+        burst(&mut steps, 1);                         // still inside the first second
+    }
+    steps.push(SStep::Shift(rng.range(1, 3) as u64)); // whole seconds: frac unchanged
+    burst(&mut steps, rate as usize * 3 + 1);         // refilled by the ticks so far, exhausted again
+    let w2 = 1250 - w1 + rng.below(100) as u64;       // nominal frac 0.25‥0.35 of the *next* second
+    steps.push(SStep::Wait(w2));
+    burst(&mut steps, rate as usize + 1);             // one more tick must have happened
+    (p, steps)
+}
+
+fn emit_history(p: &Params, steps: &[SStep], em: &mut Emitter, discarded: &mut u64) {
+    // histories with real sleeps are expensive: one more attempt only
+    let tries = if steps.iter().any(|s| matches!(s, SStep::Wait(_))) { 1 } else { 5 };
+    for _ in 0..tries {
+        match guarded_exec(p, steps) {
+            Ok(Some(x)) => {
+                em.emit(&x.case, &x.result);
+                return;
+            }
+            Ok(None) => *discarded += 1,
+            Err(e) => {
+                // configuration error or panic: the case line carries the script without probes
+                let parts: Vec<String> = steps.iter().map(|s| match s {
+                    SStep::Shift(n) => format!("s{}", n),
+                    SStep::Wait(n) => format!("w{}", n),
+                    SStep::Q { src, udp, req } => format!("q,{},{},{},0,0,0,-,-,0,0,0,0,0,0,0", src_hex(src), if *udp { "u" } else { "t" }, hex(req)),
+                }).collect();
+                em.emit(&format!("rrl {} {}", p.text(), parts.join(";")), &e);
+                return;
+            }
+        }
+    }
+}
+
+fn guarded_exec(p: &Params, steps: &[SStep]) -> Result<Option<Exec>, String> {
+    match std::panic::catch_unwind(std::panic::AssertUnwindSafe(|| exec(p, steps))) {
+        Ok(r) => r,
+        Err(_) => Err("panic".to_string()),
+    }
+}
+
+pub fn gen(rng: &mut Rng, thorough: bool, em: &mut Emitter) {
+    gen_group("rrl", rng, thorough, em)
+}
+
+pub fn gen_group(group: &str, rng: &mut Rng, thorough: bool, em: &mut Emitter) {
+    let mut discarded = 0u64;
+    match group {
+        "rrl" => {
+            // fixed regression histories first: D10 (rate 100, idle 42 949 673 s; idle 2^32 s)
+            let q = |s: &str| SStep::Q { src: IpAddr::V4(Ipv4Addr::new(192, 0, 2, 1)), udp: true,
+                                         req: encode_request(7, 0, nm(s).wire_repr(), 1, 1, None, Shape::Normal) };
+            let base = Params { ne: 100, nx: 100, er: 100, window: 1, slip: 0, v4len: 24, v6len: 56, size: 65537 };
+            emit_history(&base, &[q("a.example."), SStep::Shift(42_949_673), q("a.example.")], em, &mut discarded);
+            let one = Params { ne: 1, nx: 1, er: 1, window: 1, ..base.clone() };
+            emit_history(&one, &[q("a.example."), q("a.example."), SStep::Shift(1u64 << 32), q("a.example."), q("a.example.")], em, &mut discarded);
+            emit_history(&one, &[q("a.example."), q("a.example."), SStep::Shift(1), q("a.example."), q("a.example.")], em, &mut discarded);
+            // D17: a NOERROR response without question (root-name stream), limit 1, slip 0 and slip 1
+            let t = SStep::Q { src: IpAddr::V4(Ipv4Addr::new(192, 0, 2, 1)), udp: true, req: tsig_noquestion_request(9) };
+            emit_history(&one, &[t.clone(), t.clone(), SStep::Shift(1), t.clone(), q("."), q(".")], em, &mut discarded);
+            emit_history(&Params { slip: 1, ..one.clone() }, &[t.clone(), t.clone(), q("a.example."), t.clone()], em, &mut discarded);
+            // invalid configurations
+            for bad in [
+                Params { ne: 0, ..one.clone() }, Params { nx: 0, ..one.clone() }, Params { er: 0, ..one.clone() },
+                Params { window: 0, ..one.clone() }, Params { ne: 65536, window: 65536, ..one.clone() },
+                Params { v4len: 33, ..one.clone() }, Params { v6len: 65, ..one.clone() }, Params { size: 0, ..one.clone() },
+                Params { ne: 65537, window: 65535, ..one.clone() },
+            ] {
+                emit_history(&bad, &[q("a.example.")], em, &mut discarded);
+            }
+            // sub-second phases: real sleeps, so run them side by side
+            let k = if thorough { 64 } else { 16 };
+            let scripts: Vec<(Params, Vec<SStep>)> = (0..k).map(|_| gen_phase_history(rng)).collect();
+            let results: Vec<Result<Option<Exec>, String>> = std::thread::scope(|s| {
+                let hs: Vec<_> = scripts.iter().map(|(p, st)| s.spawn(move || guarded_exec(p, st))).collect();
+                hs.into_iter().map(|h| h.join().unwrap_or(Err("panic".into()))).collect()
+            });
+            for ((p, steps), r) in scripts.iter().zip(results) {
+                match r {
+                    Ok(Some(x)) => em.emit(&x.case, &x.result),
+                    _ => emit_history(p, steps, em, &mut discarded), // drifted or failed: once more, alone
+                }
+            }
+            let n = if thorough { 60_000 } else { 5_000 };
+            for _ in 0..n {
+                let (p, steps) = gen_history(rng);
+                emit_history(&p, &steps, em, &mut discarded);
+            }
+        }
+        "rrlkey" => {
+            let n = if thorough { 200_000 } else { 20_000 };
+            for _ in 0..n {
+                let (p, steps) = gen_pair(rng);
+                emit_history(&p, &steps, em, &mut discarded);
+            }
+        }
+        _ => {
+            let n = if thorough { 400 } else { 60 };
+            for i in 0..n {
+                let threads = if i < 16 { i + 1 } else { rng.range(1, 16) };
+                let per = *rng.pick(&[1usize, 2, 10, 50, 200, 500]);
+                let total = (threads * per) as u64;
+                let slip = *rng.pick(&[0u64, 1, 2]);
+                // capacity around the burst size, tiny, or far above
+                let cap = match rng.below(6) {
+                    0 => 1,
+                    1 => total,
+                    2 => total + 1,
+                    3 => total.saturating_sub(1).max(1),
+                    4 => (total / 2).max(1),
+                    _ => total * 3 + 7,
+                };
+                let window = *rng.pick(&[1u64, 1, 2, 5]);
+                let rate = (cap / window).max(1);
+                let pre = match rng.below(4) { 0 => rng.below(5) as u64, 1 => (rate * window) / 2, _ => 0 };
+                let size = *rng.pick(&[1u64, 3, 1009, 65537]);
+                let yields = rng.below(2) as u64;
+                let v = [rate, rate, rate, window, slip, size, pre, threads as u64, per as u64, yields];
+                let case = format!("burst {}", v.iter().map(|x| x.to_string()).collect::<Vec<_>>().join(" "));
+                match burst(&v) {
+                    Some(r) => em.emit(&case, &r),
+                    None => discarded += 1,
+                }
+            }
+            // fresh-stream bursts: the concurrent requests are the first of their stream
+            let n2 = if thorough { 200 } else { 40 };
+            for _ in 0..n2 {
+                let threads = rng.range(2, 16);
+                let per = *rng.pick(&[1usize, 2, 4, 8]);
+                let total = (threads * per) as u64;
+                let slip = *rng.pick(&[0u64, 1, 2]);
+                let cap = match rng.below(5) { 0 => 1, 1 => (total / 3).max(1), 2 => (total / 2).max(1), 3 => total.saturating_sub(1).max(1), _ => 5 };
+                let rounds = *rng.pick(&[50u64, 200, 400]);
+                let size = *rng.pick(&[1u64, 3, 1009, 65537]);
+                let v = [cap, cap, cap, 1, slip, size, rounds, threads as u64, per as u64];
+                let case = format!("bursts {}", v.iter().map(|x| x.to_string()).collect::<Vec<_>>().join(" "));
+                match bursts(&v) {
+                    Some(r) => em.emit(&case, &r),
+                    None => discarded += 1,
+                }
+            }
+        }
+    }
+    em.emit(&format!("rrl-discarded-{}", discarded), "ok");
+}
